@@ -106,7 +106,7 @@ ExecClass(r, i) ==
        ELSE IF ClassHas(i.c, At(Text, r.pos)) # i.neg THEN NextPc(Consume(r, 1)) ELSE Backtrack(r)
   ELSE IF i.k = "anc" THEN
        IF AnchorHolds(CxCode, i.c, r.pos) # i.neg THEN NextPc(r) ELSE Backtrack(r)
-  ELSE LET P == WholePaths(CxCode, [c |-> i.c, neg |-> i.neg], [pos |-> r.pos, env |-> EmptyEnv])
+  ELSE LET P == WholePaths(CxCode, [c |-> i.c, neg |-> i.neg], St0(r.pos))
        IN IF P = <<>> THEN Backtrack(r) ELSE NextPc(Consume(r, P[1].pos - r.pos))
 
 RECURSIVE RangeTry(_, _, _)
@@ -237,7 +237,7 @@ DoEndSub    == StepOp("sub-")
 DoJump      == StepOp("jump")
 
 MatchRec(n) ==
-  [s |-> from, e |-> m.pos, n |-> n, vars |-> m.env,
+  [s |-> from, e |-> m.pos, n |-> n, vars |-> m.env, svars |-> m.env,
    ls |-> fline, le |-> m.line, cs |-> fcol, ce |-> m.col]
 
 Limit(q, n) == IF n # 0 /\ Len(q) > n THEN SubSeq(q, Len(q) - n + 1, Len(q)) ELSE q
